@@ -31,6 +31,9 @@ def gen_c02(rnd, sid):
                     else: acts.append(["raise_exit"])
                 scripts.append(acts)
             handlers.append(dict(cls="U%d" % c, hid=len(handlers), data=rnd.choice([None, 7, 8]), scripts=scripts))
+    if handlers and rnd.random() < 0.25:
+        # the same callback registered a second time for the same class with the same data: the signal reaches it twice
+        h = rnd.choice(handlers); handlers.insert(rnd.randrange(len(handlers) + 1), dict(h))
     init = [["enq", "U%d" % rnd.randrange(ncls), rnd.choice([0, 0, 1]), None, sid.next()] for _ in range(rnd.randint(1, 6))]
     return dict(op="machine", mode="c02", width=80, screens=[], handlers=handlers, init=init, stdin=[], quit_cb=None, quit_screen=None,
                 exc_handler=rnd.random() < 0.6, run_empty=True, deliver_at=[],
